@@ -8,3 +8,7 @@ Check (C13_partial_parameters_are_leading_arguments : forall names this st x ty 
   run_handler names this st (CFunc {| f_named := false; f_return_ty := false; f_params := [(x, ty)]; f_body := FStmt (SExpr (EAssign (EMember EThis "i") (EIdent x))) |}) (VI a :: rest)
   = write_prop_res st this a).
 Check (C13_partial_return_stops : forall names this st s, run_handler names this st (CStmt (SBlock [SReturn None; s])) [] = Def st).
+Check (C13_partial_parameters_general : forall ps args k,
+  NoDup (map fst ps) -> (length ps <= length args)%nat -> (k < length ps)%nat ->
+  lookup (handler_env ps args) (fst (nth k ps (""%string, None))) = Some (Some (nth k args VVoid))).
+Check (eq_refl : handler_env [("x"%string, None); ("y"%string, None)] [VI 1; VI 2; VI 3] = [("y"%string, Some (VI 2)); ("x"%string, Some (VI 1))]).
